@@ -257,6 +257,21 @@ class Engine:
 
     def resolve_call(self, callee, nargs):
         """callee text from a MIR call terminator -> header name or None"""
+        mi = re.match(r"^((?:[A-Za-z_0-9]+::)*)<impl (?:<[^>]*> )?([A-Za-z_0-9:]+)(?:<.*?>)?>::([A-Za-z_0-9]+)(?:::<.*>)?$", callee)
+        if mi:
+            # inherent method of a type whose impl block lives in another module: `missed_spans::<impl FmtVisitor<'_>>::format_missing_inner`
+            mod, ty, meth = mi.group(1).rstrip(':'), last_seg(mi.group(2)), mi.group(3)
+            c = [r for r in self.by_method.get(meth, []) if r['file'] and r['self_ty'] == ty and r['trait'] is None]
+            if len(c) > 1 and mod:
+                c2 = [r for r in c if r['prefix'] and r['prefix'].split('::')[-1] == mod.split('::')[-1]]
+                if c2:
+                    c = c2
+            if len(c) > 1:
+                c2 = [r for r in c if len(self.get_fn(r['name']).params) == nargs]
+                if c2:
+                    c = c2
+            if len(c) == 1:
+                return c[0]['name']
         p = strip_generics(callee)
         m = re.match(r'^<(.*) as (.*)>::([A-Za-z_0-9]+)$', p)
         if m:
